@@ -97,7 +97,7 @@ def evaluate(run, facts, cfg, res, lemma_budget=True):
     """Turn one pipeline result into obligations / findings of `run`. Returns per-config stats."""
     names = set(res["instance_names"])
     failing = [o for o in res["obligations"] if o["n_fail"]]
-    by_lemma, remaining, anchors = lemmas.classify(failing, names)
+    by_lemma, remaining, anchors = lemmas.classify(failing, names, facts)
     for a in anchors:
         run.finding("ANCHOR-MISSING", "%s|%s" % (cfg, a), a)
     n_ok = 0
